@@ -176,6 +176,8 @@ def run_geo(cfg, ob):
         if cfg.get("fault"):
             apply_fault(geo, fd, cfg["fault"])
         st.update(names=names, fd={k: v.copy() for k, v in fd.items()})
+        # frame condition: the caller's tables (def_geo1/2 put the user's own DataFrames into the dict) are not written to
+        st["frames"] = [(k, v, v.to_numpy(dtype=object, copy=True)) for k, v in fd.items()]
         return (tg.check_on_geo1 if geo == 1 else tg.check_on_geo2)(fd)
 
     for e, (kind, res) in ex.run_all(body):
@@ -186,6 +188,15 @@ def run_geo(cfg, ob):
                 why.append(f"fault '{cfg['fault']}': " + ("no exception" if kind == "ok" else f"{type(res).__name__} instead of ValueError"))
         elif kind == "exc":
             why.append(f"valid tables (optional sheets mask {cfg['opt']}) raised {type(res).__name__}: {res}")
+        if not cfg.get("fault") and kind == "ok":
+            for k, frame, cells in st["frames"]:
+                now = frame.to_numpy(dtype=object)
+                if now.shape != cells.shape or any(now[ix] is not cells[ix] and not (isinstance(now[ix], float) and isinstance(cells[ix], float)
+                                                                                       and (now[ix] == cells[ix] or (now[ix] != now[ix] and cells[ix] != cells[ix])))
+                                                   and not (isinstance(now[ix], str) and now[ix] == cells[ix]) for ix in np.ndindex(cells.shape)):
+                    why.append(f"the caller's table '{k}' was modified in place")
+        if cfg.get("fault") or kind == "exc":
+            pass
         elif geo == 1:
             sn, coord, sdir, slines, bgn, bgl, bgs = res
             if list(sn) != names:
@@ -283,6 +294,7 @@ def replay_geo(cfg):
         pass
     names, fd = got["names"], _concrete(got["fd"])
     fd0 = {k: v.copy() for k, v in fd.items()}
+    fd_in = dict(fd)      # the table objects handed in (the function may re-bind the dict's entries)
     fn = gen.check_on_geo1 if cfg["geo"] == 1 else gen.check_on_geo2
     site = fn.__name__
     try:
@@ -298,6 +310,14 @@ def replay_geo(cfg):
             f"{site}:{'optional-sheet-required:' + missing[0] if missing and isinstance(e, KeyError) else 'raises:' + type(e).__name__}"
     if cfg.get("fault"):
         return True, f"{site}: corruption '{cfg['fault']}' accepted", f"{site}:accepts:{cfg['fault']}"
+    for k, v0 in fd0.items():
+        try:
+            same = fd_in[k].shape == v0.shape and all((a == b) or (a != a and b != b) for a, b in zip(fd_in[k].to_numpy(dtype=object).ravel(), v0.to_numpy(dtype=object).ravel()))
+        except Exception:  # noqa: BLE001
+            same = False
+        if not same:
+            return True, (f"{site}: the caller's table '{k}' was modified in place (defining the geometry a second time from the same tables "
+                          f"shifts its indices again)"), f"{site}:modifies-input:{k}"
     if cfg["geo"] == 1:
         sn, coord, sdir = res[0], res[1], res[2]
         for k, nm in enumerate(names):
